@@ -1082,6 +1082,9 @@ decl(struct scope *s, struct func *f)
 				error(&tok.loc, "typedef '%s' declared with alignment specifier", name);
 			if (asmname)
 				error(&tok.loc, "typedef '%s' declared with assembler label", name);
+			/* array lengths of a variably modified type are evaluated where the typedef is declared (6.7.8p3) */
+			if (f)
+				calcvla(f, t);
 			if (!prior)
 				scopeputdecl(s, mkdecl(name, DECLTYPE, t, tq, LINKNONE));
 			else if (!typesame(prior->type, t) || prior->qual != tq)
